@@ -7,8 +7,8 @@
    guarded by a non-empty initChars — F-17c); on the unrepaired tree C17_word_source_facts fails to re-check and the
    check reports the F-17a / F-17c inputs. *)
 From Coq Require Import List NArith Arith Bool.
-From PP Require Import Model.Str Model.Regex Gen.GenC17 Model.ReGen Model.WordModel Model.OneOf.
-From PP Require Import Proofs.RegexProofs Proofs.ReGenProofs Proofs.WordProofs Proofs.OneOfProofs.
+From PP Require Import Model.Str Model.Regex Gen.GenC17 Model.ReGen Model.WordModel Model.OneOf Model.CompRe.
+From PP Require Import Proofs.RegexProofs Proofs.ReGenProofs Proofs.WordProofs Proofs.OneOfProofs Proofs.CompReProofs.
 Import ListNotations.
 
 (* ================================================================== Word *)
@@ -165,3 +165,20 @@ Proof. exact expand_items_mem. Qed.
 Theorem C17_srange_inverse : forall (cs : list char) (x : char),
   mem_char x (expand_items (collapse_items cs)) = mem_char x cs.
 Proof. exact srange_inverse. Qed.
+
+(* ================================================================== make_compressed_re *)
+
+(* make_compressed_re(words, max_level=0) (the non-recursive fallback: alternation of the escaped words, longest
+   escaped text first, or one class when all words are single characters) fullmatches exactly the given words.
+   _partial: max_level >= 1 (the recursive prefix grouping) is not modelled in Coq; its real output is parsed and
+   run through the matcher by correspondence only. *)
+Theorem C17_compressed_re_level0_partial : forall (words : list str) (s : str),
+  (forall w, In w words -> w <> []) ->
+  (re_fullmatch (compressed0 words) s = true <-> In s words).
+Proof. exact compressed0_fullmatch. Qed.
+
+Example C17_compressed_re_instance :
+  compressed0 [[97]; [97; 46; 98]; [97; 98; 99]; [97]]%N = ralt (map rlit [[97; 46; 98]; [97; 98; 99]; [97]]%N) /\
+  re_fullmatch (compressed0 [[97]; [97; 46; 98]; [97; 98; 99]; [97]]%N) [97; 46; 98]%N = true /\
+  re_fullmatch (compressed0 [[97]; [97; 46; 98]; [97; 98; 99]; [97]]%N) [97; 98]%N = false.
+Proof. vm_compute. repeat split. Qed.
